@@ -212,6 +212,68 @@ def gen_uniq(ctx, calls):
             calls.append(('uniq-unsorted', {'f': 'uniq', 'x': [rng.randint(0, 3) for _ in range(n)], 'dtype': 'i8', 'idx': None}))
 
 
+def close_sorted(rng, n, floats):
+    """Sorted array with genuine runs mixed with DISTINCT neighbours that are relatively very close:
+    large integers differing by 1 (incl. 64-bit ids near 2^60..2^62), adjacent doubles (nextafter chains),
+    magnitudes below 1e-8 and above 1e8.  uniq must end a run at every one of them (exact comparison)."""
+    import math
+    out = []
+    if floats:
+        starts = [0.0, 1e-300, 3e-12, 7.5e-9, 1.0, 1.0 + 2.0 ** -30, 1234.5, 1e5, 86400.0 * 55000, 1e8, 1e8 + 1.0,
+                  1e15, 2.0 ** 60, -1e-9, -2.0 ** -40, -1.0, -1e9]
+        v = rng.choice([s for s in starts if s <= 1.0]) if rng.random() < 0.6 else rng.choice(starts)
+        while len(out) < n:
+            out.extend([v] * rng.randint(1, 3))
+            t = rng.random()
+            if t < 0.4:
+                for _ in range(rng.randint(1, 3)):
+                    v = math.nextafter(v, math.inf)            # adjacent double
+            elif t < 0.6:
+                v = v + abs(v) * 2.0 ** -rng.randint(20, 40) if v != 0 else 2.0 ** -rng.randint(40, 1000)
+            elif t < 0.75:
+                v = v + 2.0 ** -rng.randint(30, 60) if abs(v) < 1 else v + 1.0   # tiny absolute step / +1 on a large value
+            else:
+                bigger = [s for s in starts if s > v]
+                v = rng.choice(bigger) if bigger else v * 2 + 1
+        out = out[:n]
+        assert all(a <= b for a, b in zip(out, out[1:]))
+        return out
+    starts = [-(2 ** 62) + 5, -10 ** 12, -100000, -3, 0, 99999, 10 ** 5, 10 ** 6, 10 ** 9, 2 ** 31 - 2, 2 ** 53 - 1,
+              1237648720693755904, 2 ** 62 - 40]
+    v = rng.choice(starts)
+    while len(out) < n:
+        out.extend([v] * rng.randint(1, 3))
+        t = rng.random()
+        if t < 0.65:
+            v += 1
+        elif t < 0.8:
+            v += rng.randint(2, 9)
+        else:
+            bigger = [s for s in starts if s > v]
+            v = rng.choice(bigger) if bigger else v + 1
+    return out[:n]
+
+
+def gen_uniq_close(ctx, calls):
+    rng = ctx.rng
+    for n in list(range(2, 25)) + [30, 40]:
+        for rep in range(ctx.n(4, 16)):
+            floats = rep % 2 == 1
+            srt = close_sorted(rng, n, floats)
+            dt = 'f8' if floats else 'i8'
+            if rep % 4 < 2:
+                calls.append(('uniq-close-sorted-' + ('float' if floats else 'int'),
+                              {'f': 'uniq', 'x': srt, 'dtype': dt, 'idx': None}))
+            else:
+                perm = list(range(n))
+                rng.shuffle(perm)
+                x = [None] * n
+                for pos, j in enumerate(perm):
+                    x[j] = srt[pos]
+                calls.append(('uniq-close-indexed-' + ('float' if floats else 'int'),
+                              {'f': 'uniq', 'x': x, 'dtype': dt, 'idx': perm, 'idx_dtype': rng.choice(['i8', 'i4'])}))
+
+
 def float_index_inexact(d0, d):
     """does the double computation floor((d0/d)*i) differ from (i*d0)//d for some i?  (classification only)"""
     if d <= d0:
@@ -333,6 +395,7 @@ def gen_calls(ctx):
     gen_smooth(ctx, calls)
     gen_median(ctx, calls)
     gen_uniq(ctx, calls)
+    gen_uniq_close(ctx, calls)
     gen_rebin(ctx, calls)
     return calls
 
